@@ -232,7 +232,14 @@ fn c12_seq_runs(tier: &str) -> Vec<(String, SeqParams)> {
             },
         )
     };
+    let mut two = mk("two clients, targets (2 days, 2 versions): each client's counter counts its own versions", Config { days: 2, versions: 2 }, &[], if quick { D2Q } else { D2T });
+    two.1.alphabet = alpha(2, 1, false, false, true, &[]);
+    two.1.specs = vec![MEM_LIB, SQL_LIB, SQL_HTTP];
+    let mut zero = mk("one client, targets (0 days, 0 versions)", Config { days: 0, versions: 0 }, &[1], 4);
+    zero.1.specs = vec![MEM_LIB, SQL_LIB, MEM_HTTP, SQL_HTTP];
     let mut v = vec![
+        two,
+        zero,
         mk("one client, targets (2 days, 2 versions), snapshot ageing 1..3 days", Config { days: 2, versions: 2 }, &[1, 2, 3], if quick { D1Q } else { D1T }),
         mk("one client, targets (3 days, 3 versions): odd targets", Config { days: 3, versions: 3 }, &[2, 3, 4, 5], if quick { D1Q } else { D1T }),
     ];
@@ -379,10 +386,19 @@ pub fn seq_runs(id: &str, tier: &str) -> Vec<(String, SeqParams)> {
             base("two clients, HTTP and library twins on both backends, ageing snapshots", alpha(2, 2, true, false, true, &[2, 3]), four.clone(), if quick { D2Q } else { D2T }, if quick { 1 } else { 2 }),
             base("one client, deep chain", alpha(1, 5, false, false, true, &[2, 3]), four.clone(), if quick { D1Q } else { D1T }, 1),
         ],
-        "C18" => vec![
-            base("two clients, every non-mutating outcome", alpha(2, 3, true, false, true, &[1]), four.clone(), if quick { D2Q } else { D2T }, if quick { 1 } else { 2 }),
-            base("one client, deep chain", alpha(1, 7, false, false, true, &[]), four.clone(), if quick { D1Q } else { D1T }, 1),
-        ],
+        "C18" => {
+            let mut v = vec![
+                base("two clients, every non-mutating outcome", alpha(2, 3, true, false, true, &[1]), four.clone(), if quick { D2Q } else { D2T }, if quick { 1 } else { 2 }),
+                base("one client, deep chain", alpha(1, 7, false, false, true, &[]), four.clone(), if quick { D1Q } else { D1T }, 1),
+            ];
+            // the other configurations an operator can give: each target zero ("always ask")
+            for (d, vv) in [(0i64, 0u32), (0, 2), (2, 0)] {
+                let mut r = base(&format!("one client, snapshot targets ({d} days, {vv} versions)"), alpha(1, 2, false, false, true, &[1]), four.clone(), if quick { 4 } else { 6 }, 1);
+                r.1.cfg = Config { days: d, versions: vv };
+                v.push(r);
+            }
+            v
+        }
         _ => vec![],
     };
     let mons: Vec<&'static str> = match id {
@@ -826,6 +842,16 @@ fn http_check(id: &str, tier: &str, replay: Option<&str>) -> i32 {
                 if !quick || allow == Some(vec![0]) {
                     servers.push(("SqlHttp", allow.clone(), false, false));
                 }
+            }
+            // long lists (whatever container or search the server keeps them in): A and B among
+            // 26 ids; A among 24 with B missing
+            let mut both: Vec<u8> = (0..26).collect();
+            both.rotate_left(7);
+            let mut only_a: Vec<u8> = (2..25).collect();
+            only_a.insert(11, 0);
+            for allow in [Some(both), Some(only_a)] {
+                servers.push(("MemHttp", allow.clone(), false, false));
+                servers.push(("SqlHttp", allow.clone(), false, false));
             }
         }
         _ => {
@@ -1663,6 +1689,9 @@ pub fn c11_scenarios(tier: &str) -> Vec<crate::esched::Scenario> {
         (vec![RKind::AsOlder], vec![RKind::Gs]),
         (vec![RKind::AsLatest, RKind::Gs], vec![RKind::AvLatest, RKind::Gs]),
         (vec![RKind::AsLatest, RKind::Gs], vec![RKind::AsOlder, RKind::Gs]),
+        // a read overtaken by a whole upload, and read again afterwards (by either side)
+        (vec![RKind::Gs, RKind::Gs], vec![RKind::AsLatest]),
+        (vec![RKind::Gs], vec![RKind::AsLatest, RKind::Gs]),
     ];
     for init in ["chain2+snapshot", "chain3+snapshot"] {
         for (a, b) in &pairs {
